@@ -73,8 +73,16 @@ def gen_conditions(rng, n=None, cyclic_ok=True):
             a = g.str_expr(1)
             return {"Fn::Equals": [a, a if rng.random() < 0.5 else g.str_expr(1)]}
 
-        k = rng.randrange(6)
-        if k == 0:
+        k = rng.randrange(7)
+        if k == 6:
+            # a condition that is a value rather than a condition function: a mapped flag, a parameter, an Fn::If
+            d = rng.choice([
+                {"Fn::FindInMap": ["Flags", rng.choice(["prod", "dev", {"Ref": "Env"}]), rng.choice(["Versioning", "Logging", "Public"])]},
+                {"Ref": "Flag"},
+                {"Fn::If": ["IsProd", rng.choice(["true", "1", "yes"]), rng.choice(["false", "0", "off"])]},
+                {"Fn::Select": [rng.choice([0, 1]), ["true", "false"]]},
+            ])
+        elif k == 0:
             d = {"Fn::Not": [ref()]}
         elif k == 1:
             d = {"Fn::And": [ref() for _ in range(rng.randrange(2, 4))]}
